@@ -9,7 +9,7 @@ Variable s : list chr.
 (* ---- syntactic nullability (may the pattern match the empty string?) ---- *)
 Fixpoint nullable (r:re) : bool :=
   match r with
-  | Eps | Bol | Eol | Look _ _ _ _ => true
+  | Eps | Bol | Eol | Eos | Look _ _ _ _ => true
   | Chr _ => false
   | Seq a b => nullable a && nullable b
   | Alt a b => nullable a || nullable b
@@ -20,7 +20,7 @@ Fixpoint nullable (r:re) : bool :=
 (* every success ends at or after its start; strictly after for non-nullable patterns *)
 Lemma ms_mono : forall r i c j c', In (j,c') (ms s r i c) -> i <= j /\ (nullable r = false -> i < j).
 Proof.
-  induction r as [| cs | a IHa b IHb | a IHa b IHb | g a IHa lo hi | | | ahead neg w a IHa | n a IHa]; intros i c j c' Hin; cbn [ms nullable] in *.
+  induction r as [| cs | a IHa b IHb | a IHa b IHb | g a IHa lo hi | | | | ahead neg w a IHa | n a IHa]; intros i c j c' Hin; cbn [ms nullable] in *.
   - destruct Hin as [E|[]]. inversion E; subst. split; [lia|discriminate].
   - destruct (nth_error s i); [|contradiction]. destruct (in_cset c0 cs); [|contradiction]. destruct Hin as [E|[]]. inversion E; subst. split; lia.
   - apply in_flat_map in Hin as [[k ck] [H1 H2]]. simpl in H2. destruct (IHa _ _ _ _ H1) as [L1 S1]. destruct (IHb _ _ _ _ H2) as [L2 S2].
@@ -52,6 +52,7 @@ Proof.
       destruct (IHlo _ _ _ _ _ H2) as [L2 _]. split; [lia|]. intros Hn. specialize (S1 Hn). lia.
   - destruct (Nat.eqb i 0); [|contradiction]. destruct Hin as [E|[]]. inversion E; subst. split; [lia|discriminate].
   - destruct (eol s i); [|contradiction]. destruct Hin as [E|[]]. inversion E; subst. split; [lia|discriminate].
+  - destruct (Nat.eqb i (slen s)); [|contradiction]. destruct Hin as [E|[]]. inversion E; subst. split; [lia|discriminate].
   - destruct (xorb neg _); [|contradiction]. destruct Hin as [E|[]]. inversion E; subst. split; [lia|discriminate].
   - apply in_map_iff in Hin as [[k ck] [E Hin]]. simpl in E. inversion E; subst. apply IHa in Hin. exact Hin.
 Qed.
@@ -74,7 +75,7 @@ Proof. intros Hs H p Hp. destruct (H p Hp) as (x & cs & E & I & M). eauto 6. Qed
 
 Theorem match_alphabet : forall r i c j c', In (j,c') (ms s r i c) -> covered (alpha r) i j.
 Proof.
-  induction r as [| cs | a IHa b IHb | a IHa b IHb | g a IHa lo hi | | | ahead neg w a IHa | n a IHa]; intros i c j c' Hin; cbn [ms alpha] in *.
+  induction r as [| cs | a IHa b IHb | a IHa b IHb | g a IHa lo hi | | | | ahead neg w a IHa | n a IHa]; intros i c j c' Hin; cbn [ms alpha] in *.
   - destruct Hin as [E|[]]. inversion E; subst. apply covered_empty.
   - destruct (nth_error s i) eqn:En; [|contradiction]. destruct (in_cset c0 cs) eqn:Ec; [|contradiction]. destruct Hin as [E|[]]. inversion E; subst.
     intros p Hp. assert (p = i) by lia. subst. exists c0, cs. simpl. auto.
@@ -104,6 +105,7 @@ Proof.
     + apply in_flat_map in Hin as [[k ck] [H1 H2]]. simpl in H2. eapply covered_trans; [eapply IHa; eauto|eapply IHlo; eauto].
   - destruct (Nat.eqb i 0); [|contradiction]. destruct Hin as [E|[]]. inversion E; subst. apply covered_empty.
   - destruct (eol s i); [|contradiction]. destruct Hin as [E|[]]. inversion E; subst. apply covered_empty.
+  - destruct (Nat.eqb i (slen s)); [|contradiction]. destruct Hin as [E|[]]. inversion E; subst. apply covered_empty.
   - destruct (xorb neg _); [|contradiction]. destruct Hin as [E|[]]. inversion E; subst. apply covered_empty.
   - apply in_map_iff in Hin as [[k ck] [E Hin]]. simpl in E. inversion E; subst. eapply IHa; eauto.
 Qed.
